@@ -23,20 +23,13 @@ type env struct {
 	// soft fault: every command is answered with an error reply (what mr.SetError does; done by
 	// our own pre-hook because the hook also counts script commands)
 	faulty atomic.Bool
-	// evals counts the script commands (EVALSHA / EVAL) that reach the server. A limiter request
-	// sends at most one; more means the go-redis client re-sent it (it retries up to 3 times
-	// after a read timeout / connection error, e.g. on an overloaded machine), which would
-	// execute a non-idempotent script twice — a harness artefact. Such a history is re-executed
-	// (see stable in main.go).
-	evals  atomic.Int64
-	resent atomic.Bool
+	fence      // detector of commands re-sent by the go-redis client, see fence.go
+	wide  bool // schedule executions: one fence window per execution (opened by the body)
 }
 
 func (e *env) hook() {
 	e.mr.Server().SetPreHook(func(c *server.Peer, cmd string, args ...string) bool {
-		if cmd == "EVALSHA" || cmd == "EVAL" {
-			e.evals.Add(1)
-		}
+		e.observe(c, cmd, args)
 		if e.faulty.Load() {
 			c.WriteError(faultMsg)
 			return true
@@ -45,13 +38,13 @@ func (e *env) hook() {
 	})
 }
 
-// counted runs one limiter request and notes whether the client re-sent its script command.
+// counted runs one limiter request inside its own fence window (histories).
 func (e *env) counted(f func()) {
-	n0 := e.evals.Load()
-	f()
-	if e.evals.Load()-n0 > 1 {
-		e.resent.Store(true)
+	if !e.wide {
+		e.open()
+		defer e.close()
 	}
+	f()
 }
 
 var (
@@ -77,6 +70,7 @@ func getEnv() *env {
 		limit.NewPeriodLimit(1, 1, cli, "warm-up").Take("x")
 		limit.NewTokenLimiter(1, 1, cli, "warm-up").AllowN(vsched.Epoch, 1)
 		mr.FlushAll()
+		settle(mr, cli.Ping)
 	})
 	return theEnv
 }
@@ -125,3 +119,5 @@ func (e *env) forward(ms, nowMs int64) {
 }
 
 func msDur(ms int64) time.Duration { return time.Duration(ms) * time.Millisecond }
+
+func sleepMs(ms int) { time.Sleep(time.Duration(ms) * time.Millisecond) }
